@@ -100,6 +100,25 @@ def lena_frame(exc):
     return None
 
 
+def callback_frame(exc):
+    """If exc was raised in harness code that lena was calling at that moment (an element
+    function, predicate or accumulator of the harness invoked from lena code), return the
+    innermost lena frame: lena handed the callback something it cannot be handed on the
+    unchanged tree (there the callbacks are total on everything they receive)."""
+    tb = traceback.extract_tb(exc.__traceback__)
+    first_lena = None
+    for i, fr in enumerate(tb):
+        fn = os.path.abspath(fr.filename)
+        if fn.startswith(LENA_DIR):
+            first_lena = i
+    if first_lena is None:
+        return None
+    inner = os.path.abspath(tb[-1].filename)
+    if inner.startswith(HARNESS_DIR) and first_lena < len(tb) - 1:
+        return tb[first_lena]
+    return None
+
+
 def short(obj, n=300):
     s = repr(obj)
     return s if len(s) <= n else s[:n] + "..."
@@ -148,6 +167,13 @@ class Recorder(object):
             if lena_frame(e) is not None:
                 raise Violation(
                     exc_sig(e), "%s: %s" % (type(e).__name__, short(str(e)))
+                ).with_traceback(e.__traceback__)
+            cb = callback_frame(e)
+            if cb is not None and not isinstance(e, AssertionError):
+                raise Violation(
+                    "harness-callback-fails-on-what-lena-passes:%s:%s:%s" % (
+                        type(e).__name__, os.path.relpath(cb.filename, REPO), cb.name),
+                    "%s: %s" % (type(e).__name__, short(str(e)))
                 ).with_traceback(e.__traceback__)
             raise
 
